@@ -1,0 +1,29 @@
+//go:build verif
+
+// Contracts for package mcp.  Comment-only file: part of the build only under
+// the tag "verif", contains no code.  Checked by /verif/govc on every run
+// against the current source of this package.
+
+package mcp
+
+//@ pred inslice(s []string, x string) = exists i int :: 0 <= i && i < len(s) && s[i] == x
+
+// ---------------------------------------------------------------------------
+// manager_lifecycle.go — C16 (version negotiation, advertised capabilities)
+
+//@ type lifecycleManager
+//@   ctor newLifecycleManager, withProtocolVersion, withSupportedVersions
+//@   final[C16] supportedVersions, defaultProtocolVersion
+//@   invariant[C16 default-version-is-supported] inslice(self.supportedVersions, self.defaultProtocolVersion)
+//@
+//@ func lifecycleManager.withProtocolVersion
+//@   requires[C16] inslice(m.supportedVersions, version)
+//@ func lifecycleManager.withSupportedVersions
+//@   requires[C16] inslice(versions, m.defaultProtocolVersion)
+//@
+//@ func lifecycleManager.selectSupportedVersion
+//@   ensures[C16 requested-version-when-supported] inslice(m.supportedVersions, protocolVersion) ==> result == protocolVersion
+//@   ensures[C16 default-version-otherwise] !inslice(m.supportedVersions, protocolVersion) ==> result == m.defaultProtocolVersion
+//@   ensures[C16 never-an-unsupported-version] inslice(m.supportedVersions, result)
+//@   loop 1 invariant[C16] forall j int :: 0 <= j && j <= rangeindex ==> m.supportedVersions[j] != protocolVersion
+//@   loop 1 invariant[C16] 0 - 1 <= rangeindex && rangeindex < len(m.supportedVersions)
